@@ -180,6 +180,9 @@ class Tx:
         return self.w.vdt.now()
 
     async def write_frame(self, frame: str, disable_tx_limits: bool = False) -> None:
+        d = self.w.params.get("write_delay")
+        if d:  # a regulated transport (duty-cycle limiter, write gap) holds the frame for a while before it is written - or fails
+            await asyncio.sleep(d)
         self.w.on_write(frame)
 
 
